@@ -30,7 +30,7 @@ HOSTF = ["none", "match", "mismatch"]
 N_ENUM = len(CAPS) * len(FILTERS) * len(HOSTF)
 EXHAUSTIVE = [f"all {N_ENUM} single-gateway combinations: capability flags (routing x tunnelling version x secured families x "
               "core version) x 32 filter flag vectors x keyring host filter {none, matching, mismatching}"]
-EXTRA = {"quick": 2000, "thorough": 300000}
+EXTRA = {"quick": 2000, "thorough": 1800000}
 
 
 class _Runs(dict):
